@@ -96,7 +96,11 @@ func cmdVerify(args []string) {
 			if *quietOK && o.Status == "proved" {
 				continue
 			}
-			fmt.Printf("   %-8s %-60s %s [%s] %s\n", o.Status, o.Label, o.Where, o.Solver, trunc(o.Note, 70))
+			reach := ""
+			if o.Reach == "unsat" {
+				reach = " (UNREACHABLE: vacuous)"
+			}
+			fmt.Printf("   %-8s %-60s %s [%s] %s%s\n", o.Status, o.Label, o.Where, o.Solver, trunc(o.Note, 70), reach)
 			if o.Status != "proved" && *showModel {
 				fmt.Println(indent(o.Output, "      "))
 				fmt.Println(indent(filterModel(o.Model), "      "))
